@@ -162,16 +162,28 @@ def finish(prop, pc, tier, seed, results, kani_res, wall, update_baseline=False)
         sys.path.insert(0, HERE)
         import replay as _rp2
         chosen = None
-        for exact in (True, False):      # a probe registered for exactly one obligation names that obligation
-            for o in obls:
-                if chosen or (not exact and o["id"].endswith(".safety") and len(obls) > 1):
-                    continue
-                cand = []
-                for key, pl in probes.items():
-                    if o["id"] == key or (not exact and (o["id"].startswith(key + ".") or (key.endswith("*") and o["id"].startswith(key[:-1])))):
-                        cand += pl
-                if cand and any(_rp2.run_probe(pr)[0] is False for pr in cand):
-                    chosen = o
+        # the probes of a rejected function: those registered for the function itself (or a prefix of its id) and those
+        # registered for any of its obligations; a probe registered for exactly one obligation names that obligation
+        failing_keys = set()
+        def _fails(pl, _cache={}):
+            for pr in pl:
+                k = json.dumps(pr, sort_keys=True)
+                if k not in _cache:
+                    _cache[k] = _rp2.run_probe(pr)[0] is False
+                if _cache[k]:
+                    return True
+            return False
+        for key, pl in probes.items():
+            kk = key[:-1] if key.endswith("*") else key
+            rel = fn and (fn == kk or fn.startswith(kk + ".")) or any(o["id"] == kk or o["id"].startswith(kk + ".") for o in obls)
+            if rel and _fails(pl):
+                failing_keys.add(kk)
+        if failing_keys:
+            exact = [o for o in obls if o["id"] in failing_keys]
+            pref = [o for o in obls if not o["id"].endswith(".safety") and any(o["id"].startswith(k + ".") for k in failing_keys)]
+            nons = [o for o in obls if not o["id"].endswith(".safety")]
+            chosen = (exact or pref or nons or obls)[0]
+            chosen["probe_keys"] = sorted(failing_keys)
         if chosen:
             chosen["status"] = "failed"
             chosen["diag"] = ("the verifier rejected the changed function %s (%s): its obligations %s, discharged on the unchanged tree, are no longer "
@@ -194,7 +206,8 @@ def finish(prop, pc, tier, seed, results, kani_res, wall, update_baseline=False)
             cand += o["playback"].get("probes", [])
             rec["kani_concrete_values"] = o["playback"].get("values")
         for key, pl in probes.items():
-            if o["id"] == key or o["id"].startswith(key + ".") or (key.endswith("*") and o["id"].startswith(key[:-1])):
+            kk = key[:-1] if key.endswith("*") else key
+            if o["id"] == key or o["id"].startswith(kk + ".") or kk in o.get("probe_keys", []):
                 cand += pl
         if cand:
             if replay_mod is None:
